@@ -46,4 +46,7 @@ ConfigsABBA == {C(24, 2, 2, <<TRUE, TRUE>>, 2, BodyABBA)}
 ConfigsTwice == {C(25, 2, 2, <<TRUE>>, 1, BodyTwice)}
 ConfigsSmall == {C(2, 2, 3, <<TRUE>>, 1, BodySum1), C(3, 3, 3, <<TRUE>>, 1, BodySum1)}
 
+\* fault plans
+PlansAny == {{}}
+PlansSim == {{}, 2..5, 6..9, 10..14, 15..20, 21..27, 28..36, 37..50, 51..70, {4, 5, 6, 30, 31, 32}, {12, 13, 14, 44, 45, 46}}
 =============================================================================
